@@ -24,8 +24,13 @@ def wkey(w):
     return (w[0],) + tuple(nval(x) for x in w[1:])
 
 
+def default_naming(kind, i):
+    return '%s%d' % (kind, i)
+
+
 class Impl:
-    def __init__(self):
+    def __init__(self, naming=None):
+        self.nm = naming or getattr(self, 'nm', None) or default_naming
         psbase.active_problem = None
         self.pb = None
         self.tasks = {}
@@ -142,7 +147,7 @@ class Impl:
 
     # ---------------- constructors ----------------
     def new_constraint(self, cid, opt, e):
-        name = 'K%d' % cid
+        name = self.nm('K', cid)
         h = e[0]
         T = lambda x: self.tasks[nval(x)]
         TL = lambda l: [self.tasks[nval(x)] for x in l]
@@ -254,7 +259,7 @@ class Impl:
         if h == 'ONewTask':
             tid = nval(op[1])
             k = op[2]
-            kw = dict(name='T%d' % tid, optional=op[3], work_amount=zval(op[4]), release_date=optval(op[5], zval),
+            kw = dict(name=self.nm('T', tid), optional=op[3], work_amount=zval(op[4]), release_date=optval(op[5], zval),
                       due_date=optval(op[6], zval), due_date_is_deadline=op[7], priority=zval(op[8]))
             if k[0] == 'KZero':
                 t = ps.ZeroDurationTask(**kw)
@@ -267,19 +272,19 @@ class Impl:
             return
         if h == 'ONewWorker':
             wid = nval(op[1])
-            w = ps.Worker(name='W%d' % wid, productivity=zval(op[2]), cost=self.cost(op[3]))
+            w = ps.Worker(name=self.nm('W', wid), productivity=zval(op[2]), cost=self.cost(op[3]))
             self.workers[('WPlain', wid)] = w
             return
         if h == 'ONewCumulative':
             cid = nval(op[1])
-            c = ps.CumulativeWorker(name='C%d' % cid, size=zval(op[2]), productivity=zval(op[3]), cost=self.cost(op[4]))
+            c = ps.CumulativeWorker(name=self.nm('C', cid), size=zval(op[2]), productivity=zval(op[3]), cost=self.cost(op[4]))
             self.cumuls[cid] = c
             for i, u in enumerate(c._cumulative_workers):
                 self.workers[('WUnit', cid, i)] = u
             return
         if h == 'ONewSelect':
             sid = nval(op[1])
-            s = ps.SelectWorkers(name='S%d' % sid, list_of_workers=[self.rref(r) for r in op[2]],
+            s = ps.SelectWorkers(name=self.nm('S', sid), list_of_workers=[self.rref(r) for r in op[2]],
                                  nb_workers_to_select=zval(op[3]), kind=PB[op[4][0]])
             self.selects[sid] = s
             return
@@ -312,7 +317,7 @@ class Impl:
             for key, v in zip(('initial_level', 'final_level', 'lower_bound', 'upper_bound'), op[3:7]):
                 if v is not None:
                     kw[key] = zval(v[1])
-            self.buffers[bid] = cls(name='B%d' % bid, **kw)
+            self.buffers[bid] = cls(name=self.nm('B', bid), **kw)
             return
         if h == 'ONewIndicator':
             iid = nval(op[1])
@@ -336,7 +341,7 @@ class Impl:
 
     def new_indicator(self, iid, e, bounds):
         h = e[0]
-        kw = dict(name='I%d' % iid)
+        kw = dict(name=self.nm('I', iid))
         if bounds is not None:
             kw['bounds'] = (zval(bounds[1][1]), zval(bounds[1][2]))
         if h == 'IExpr':
@@ -368,7 +373,7 @@ class Impl:
         if h == 'OMakespan':
             return ps.ObjectiveMinimizeMakespan()
         if h == 'ORaw':
-            return ps.Objective(name='O%d' % nval(o[1]), target=self.term(o[2]), weight=zval(o[3]),
+            return ps.Objective(name=self.nm('O', nval(o[1])), target=self.term(o[2]), weight=zval(o[3]),
                                 kind='maximize' if o[4] else 'minimize')
         if h == 'OMaxUtilization':
             return ps.ObjectiveMaximizeResourceUtilization(resource=self.resobj(o[1]))
